@@ -37,6 +37,7 @@ type Clause struct {
 	Loop   int
 	Walk   bool
 	LetVar string
+	Group   string // {name}: the clause is proved from, and visible to, only clauses of the same group plus the ungrouped ones
 	Assumed bool // trusted-ensures: assumed at call sites, not checked against the body (listed in the evidence)
 	File   string
 	Line   int
@@ -251,6 +252,8 @@ func groupClauses(lines []rawLine) []rawLine {
 	return out
 }
 
+var groupRe = regexp.MustCompile(`^\s*\{([A-Za-z0-9_-]+)\}\s*`)
+
 func (cs *Contracts) parseFile(file, pkgPath string, data string) error {
 	lines, _, err := contractLinesFrom(file, data)
 	if err != nil {
@@ -268,6 +271,10 @@ func (cs *Contracts) parseFile(file, pkgPath string, data string) error {
 				for _, p := range strings.Split(m[1], ",") {
 					c.Labels = append(c.Labels, strings.TrimSpace(p))
 				}
+				text = text[len(m[0]):]
+			}
+			if m := groupRe.FindStringSubmatch(text); m != nil {
+				c.Group = m[1]
 				text = text[len(m[0]):]
 			}
 			if m := nameRe.FindStringSubmatch(text); m != nil {
